@@ -271,8 +271,21 @@ def run_case(case):
               exp_rows.append((new, bad))
     expect_raise = policy in ('default', 'raise') and first_bad is not None
 
-    srcs = [lab.source(rn, in_fields, tables[rn]) for rn in res_names]
-    got = lab.run(srcs + steps_pre + [step])
+    # second execution of the same Flow object (re-runnable sources): the policy applies in exactly the same way
+    rerun = boot.rng(case['seed'], 'C14', 'rerun', case['idx']).random() < 0.2
+
+    def reset_logs():
+        del log[:]
+        calls_in_row.clear()
+    lab.second_run(rerun, reset_logs)
+    try:
+        srcs = [lab.source(rn, in_fields, tables[rn]) for rn in res_names]
+        got = lab.run(srcs + steps_pre + [step])
+    finally:
+        lab.second_run(False)
+    if rerun:
+        cov.setdefault('config', {})['second_execution_of_the_same_flow'] = 1
+        cfg['second_execution'] = True
     sample = {'config': cfg, 'fields': out_fields, 'rows': gen.render(tables[selected[0]][:4], 500)}
 
     def add(kind, msg, mech=None):
